@@ -112,8 +112,8 @@ CLAIMED["C15"] = dict(
 CLAIMED["C18"] = dict(
     category="other",
     technique="contract-based verification of bumpver's own reader glue (_parse_cfg, _parse_toml, _set_raw_config_defaults: section precedence, boolean spellings, defaults; z3) over an abstract view of the library parsers, plus a bounded differential check of the real readers (configparser / toml) on sibling projects that differ only in syntax",
-    text="Proved: _parse_toml hands on the settings of [tool.bumpver], else [bumpver], else [pycalver] unchanged with commit/tag/push taken as the TOML values or the defaults False/None/None; _parse_cfg hands on the strings of [pycalver] else [bumpver] and reads commit/tag/push as true exactly for the spellings 1/yes/true/on (case-insensitive), else the same defaults; both validate and default the returned dictionary through _set_raw_config_defaults, which is proved to change nothing but a missing file_patterns entry. Bounded (never counted as proved): seeded abstract configurations are rendered in six syntaxes (setup.cfg [bumpver]/[pycalver], pyproject.toml, bumpver.toml, .bumpver.toml, pycalver.toml) with every accepted boolean spelling, quoting style, 0..4 files x 1..3 patterns, glob entries, scopes and missing optional keys; config.init must return the same effective settings, always including the config file's own current_version line.",
-    note=TB + "The library parsers (configparser, toml) are assumed to deliver sections as dictionaries (A-lib; executed for real in the bounded matrix). _parse_config, _parse_cfg_file_patterns, _parse_current_version_default_pattern and the glob expansion are not under contract: the statement as a whole is claimed only at the bounded level (category other).",
+    text="Proved: _parse_toml hands on the settings of [tool.bumpver], else [bumpver], else [pycalver] unchanged with commit/tag/push taken as the TOML values or the defaults False/None/None; _parse_cfg hands on the strings of [pycalver] else [bumpver] and reads commit/tag/push as true exactly for the spellings 1/yes/true/on (case-insensitive), else the same defaults; both validate and default the returned dictionary through _set_raw_config_defaults, which is proved to change nothing but a missing file_patterns entry; _parse_config returns only if tag and push have commit, takes unset tag/push as False and the strings unquoted; _parse_current_version_default_pattern returns the first current_version line inside a [bumpver]/[tool.bumpver]/[pycalver] section (loop invariant over a ghost in-section function) with the version pattern put in. Bounded (never counted as proved): seeded abstract configurations are rendered in six syntaxes (setup.cfg [bumpver]/[pycalver], pyproject.toml, bumpver.toml, .bumpver.toml, pycalver.toml) with every accepted boolean spelling, quoting style, 0..4 files x 1..3 patterns, glob entries, scopes and missing optional keys; config.init must return the same effective settings, always including the config file's own current_version line.",
+    note=TB + "The library parsers (configparser, toml) are assumed to deliver sections as dictionaries (A-lib; executed for real in the bounded matrix). _parse_cfg_file_patterns, _compile_file_patterns and the glob expansion are not under contract: the statement as a whole is claimed only at the bounded level (category other).",
 )
 CLAIMED["C20"] = dict(
     category="other",
